@@ -363,10 +363,13 @@ def r5_elastic(ctx):
                         if t[0] == "binop" and t[1] == "*":
                             for g, fj in ((t[2], t[3]), (t[3], t[2])):
                                 if g[0] == "sub" and g_call(g[1], Gs) and is_int(g[2]) and fj[0] == "sub" and fj[1] == ("param", "forces"):
-                                    off = "north" if any(x[0] == "binop" and x[1] == "+" for x in walk(fj[2])) else "east"
+                                    ix = fj[2]
+                                    plain = ix[0] == "elem" and ix[1][0] == "call" and callee(ix[1]) == "builtins.range" and len(ix[1][2]) == 1
+                                    shifted = ix[0] == "binop" and ix[1] == "+" and any(y[0] == "elem" and y[1][0] == "call" and callee(y[1]) == "builtins.range" and len(y[1][2]) == 1 for y in (ix[2], ix[3]))
+                                    off = "east" if plain else ("north" if shifted else "?")      # forces[j] / forces[j + nforces]; any other index form is not classified
                                     got.add((g[2][1], off))
                     want_set = {(k_own, "east" if acc == "vec_east" else "north"), (k_cross, "north" if acc == "vec_east" else "east")}
-                    ok = True if got == want_set else (False if len(got) == 2 else None)
+                    ok = True if got == want_set else (False if len(got) == 2 and not any(o == "?" for _k, o in got) else None)
                     detail = "got %s, documented %s" % (sorted(got), sorted(want_set))
                 else:
                     detail = "no single += found"
